@@ -82,3 +82,15 @@ func (v *VerifParser) Pending() map[uint16][]bool {
 
 // Clear does what the reader's deferred function does when the connection ends.
 func (v *VerifParser) Clear() { clear(v.buf); v.p.clear() }
+
+// VerifYield, when set before any connection exists, is called at the scheduling
+// points that the monitor's generated build overlay inserts into copies of this
+// package's files (before channel operations, socket writes and closes). Nothing in
+// the committed sources calls verifYield.
+var VerifYield func(site int)
+
+func verifYield(site int) {
+	if f := VerifYield; f != nil {
+		f(site)
+	}
+}
